@@ -422,9 +422,11 @@ func (c *Client) Initialize(ctx context.Context, initReq *InitializeRequest) (*I
 
 	// Try to establish GET SSE connection if transport supports it
 	if t, ok := c.transport.(*streamableHTTPClientTransport); ok {
-		// Start GET SSE connection asynchronously to avoid blocking.
+		// The connection itself is made asynchronously (establishGetSSE starts a goroutine for it and
+		// does not block); it is registered before Initialize returns, so that a Close that follows
+		// at once finds it and ends it.
 		// Pass the context so GET SSE can inherit context values.
-		go t.establishGetSSEConnection(ctx)
+		t.establishGetSSEConnection(ctx)
 	}
 
 	return initResult, nil
